@@ -161,6 +161,7 @@ def run(facts, R):
     ss = Sym(sb)
     rows = value_rows(sb, ss, facts, 0)
     table = set()
+    replayed_flags = set()
     for g, v in rows:
         la = "some" if any("take(arg1.lookahead) is Some" in x for x in g) else "none" if any("take(arg1.lookahead) is None" in x for x in g) else "any"
         r1 = [x.split(" is ")[1] for x in g if "recv#1(" in x]
@@ -169,9 +170,25 @@ def run(facts, R):
             src = "recv#1" if "recv#1" in v else "recv#2" if "recv#2" in v else "?"
             res = "Err(%s.Fail)" % src
         else:
-            cur = "empty" if "Vec::new()" in v else "lookahead" if "take(arg1.lookahead) as Some" in v else "recv#1.Chunk" if re.search(r"recv#1\(arg1(\.rx)?\) as Chunk", v) else "?"
+            cur = "empty" if re.search(r"Vec::new(#\d+)?\(\)", v) else "lookahead" if "take(arg1.lookahead) as Some" in v else "recv#1.Chunk" if re.search(r"recv#1\(arg1(\.rx)?\) as Chunk", v) else "?"
             last = v.rstrip("}").rsplit("1: ", 1)[-1]
             res = "Ok(%s,last=%s)" % (cur, last)
+        if not r1 and not r2 and res == "Ok(empty,last=1)" and la == "any" and getattr(sb, "changed", False):
+            # the replay of an End that another consumer of the channel recorded in the session (`if self.ended { return (empty, true) }`):
+            # guarded by a bool field of the session that is true, set only behind an End outcome (judged by the consumer rule below)
+            flags = [x for x in g if re.match(r"arg1\.\w+ is True$", x)]
+            fl = flags[0].split(" is ")[0].split(".", 1)[1] if flags and len(g) == 1 else None      # (the flag alone decides the replay)
+            sets = [w for w in field_writes(facts, VS + "Session", fl)] if fl else []
+            def _true_store(w):
+                if w["kind"] != "store":
+                    return False
+                wv = Sym(w["body"]).rvalue(w["rv"])
+                return wv[0] == "const" and wv[1] in (1, True)
+            trues = [w for w in sets if _true_store(w)]
+            if fl and trues and all(any(f_["val"] == "End" and is_call(f_["expr"], "recv") for f_ in facts_at(w["body"], Sym(w["body"]), facts, w["bb"])) for w in trues):
+                R.ok("pull-decision-table", sb.path, "recorded End replayed as the empty last chunk", sb.span, "flag `%s` set only behind an End outcome" % fl)
+                replayed_flags.add(fl)
+                continue
         table.add((la, tuple(r1), tuple(r2), res))
     want = {
         ("none", ("Fail",), (), "Err(recv#1.Fail)"),
@@ -210,6 +227,57 @@ def run(facts, R):
     for c in facts.children(rc.path):
         cv = Sym(c).local(0)
         R.check(cv[0] == "agg" and cv[2] == "Fail", "pull-decision-table", c.path, "closed channel -> Fail", "closed channel maps to %s" % render(cv)[:80], c.span, "Msg::Fail")
+
+    # ---------------- every message taken off the session channel is accounted for, whoever takes it: the channel carries the
+    # stream exactly once, so a consumer besides pull (a peek / prime / prefetch added later) that swallows the End marker makes
+    # the next pull see a closed channel (reported as a producer failure), and one that drops a Chunk loses bytes
+    n_cons = 0
+    for b_ in facts.bodies.values():
+        if not b_.path.startswith(("value_stream::", "<value_stream::")):
+            continue
+        for i_, t_ in b_.calls():
+            if t_["callee"]["name"] in ("recv", "try_recv", "recv_timeout", "try_iter", "iter") and "Receiver" in t_["callee"]["path"] and "Msg" in str(t_["callee"].get("targs") or t_.get("arg_tys") or ""):
+                R.check(b_.path == rc.path, "pull-decision-table", b_.path, "the session channel is read only by Session::recv",
+                        "%s reads the producer channel directly: what it takes is not seen by Session::pull" % b_.path, t_.get("span"))
+    for b_ in facts.bodies.values():
+        sites = [(i_, t_) for i_, t_ in b_.calls() if callee_matches(t_["callee"], VS + "Session::recv")]
+        if not sites:
+            continue
+        bs_ = Sym(b_)
+        rows_ = value_rows(b_, bs_, facts, 0)
+        sess_stores = [(x, j, st_) for x, j, st_ in b_.assigns() if any(isinstance(e_, dict) and e_.get("a") == VS + "Session" for e_ in st_["place"]["p"])]
+        for g_, v_ in rows_:
+            recv_g = [x for x in g_ if "Session::recv" in x and x.rsplit(" is ", 1)[-1] in ("End", "Fail", "Chunk")]
+            if not recv_g:
+                continue
+            n_cons += 1
+            last = recv_g[-1]
+            kind = last.rsplit(" is ", 1)[-1]
+            call_txt = last.rsplit(" is ", 1)[0]
+            ord_ = call_txt.split("(", 1)[0]        # `Session::recv#2`
+            # blocks known to lie behind this very outcome
+            if kind == "End":
+                marks_last = v_.rstrip("}").endswith("1: 1") or ", 1: 1}" in v_
+                rec_flds = {[e_["f"] for e_ in st_["place"]["p"] if isinstance(e_, dict) and e_.get("a") == VS + "Session"][-1] for x, j, st_ in sess_stores
+                            if any(f_["val"] == "End" and is_call(f_["expr"], "recv") for f_ in facts_at(b_, bs_, facts, x))}
+                # ... recorded in a field that pull replays as the empty last chunk
+                recorded = bool(rec_flds & replayed_flags)
+                R.check(marks_last or recorded, "pull-decision-table", b_.path, "an End taken off the channel is reported as the last chunk (or recorded in the session)",
+                        "%s takes the End marker off the session channel (%s) and returns %s without marking the chunk as last or recording the end in the session: the "
+                        "next pull finds a closed channel and reports a producer failure instead of the clean end (an empty payload never yields its empty final chunk)"
+                        % (b_.path.rsplit("::", 1)[-1], last, v_[:80]), b_.span, "last = true")
+            elif kind == "Fail":
+                R.check("Err{" in v_ or "error" in v_.lower(), "pull-decision-table", b_.path, "a Fail taken off the channel surfaces as an error",
+                        "%s takes a producer failure off the channel (%s) and returns %s" % (b_.path.rsplit("::", 1)[-1], last, v_[:80]), b_.span, "Err")
+        for g_, v_ in rows_:
+            for x in g_:
+                if "Session::recv" in x and x.endswith(" is Chunk"):
+                    payload = "(%s as Chunk).0" % x.rsplit(" is ", 1)[0]
+                    kept = payload in v_ or any(payload in render_n(bs_.rvalue(st_["rv"])) or "as Chunk).0" in render(bs_.rvalue(st_["rv"])) for _, _, st_ in sess_stores)
+                    R.check(kept, "pull-decision-table", b_.path, "a Chunk taken off the channel is returned or staged in the session",
+                            "%s takes a chunk off the session channel (%s) that is neither part of what it returns nor stored in the session: those bytes are lost"
+                            % (b_.path.rsplit("::", 1)[-1], x), b_.span, "returned / lookahead")
+    R.floor("pull-decision-table", n_cons, 4, "outcome rows of Session::recv consumers")
 
     # ---------------- done-gate ----------------------------------------------------------------------------------
     nh = facts.body("<value_stream::NextHandler as server::HandlerErased>::handle")
